@@ -1,0 +1,48 @@
+//go:build verif
+
+package safemath
+
+// Contracts for the verification machinery in /verif (comment-only file, never compiled into
+// a normal build). Grammar: /verif/DESIGN.md §3.2. Arithmetic inside contracts is unbounded
+// mathematical integer arithmetic; `/` is the truncated quotient.
+
+/*@
+func SafeAdd
+  instantiate T: int8, int16, int32, int64, uint8, uint16, uint32, uint64
+  ensures  fits(T, x + y) ==> r1 == nil && r0 == x + y
+  ensures !fits(T, x + y) ==> is(r1, ErrIntegerOverflow)
+
+func SafeSub
+  instantiate T: int8, int16, int32, int64, uint8, uint16, uint32, uint64
+  ensures  fits(T, x - y) ==> r1 == nil && r0 == x - y
+  ensures !fits(T, x - y) ==> is(r1, ErrIntegerOverflow)
+
+func SafeMul
+  instantiate T: int8, int16, int32, int64, uint8, uint16, uint32, uint64
+  ensures  fits(T, x * y) ==> r1 == nil && r0 == x * y
+  ensures !fits(T, x * y) ==> is(r1, ErrIntegerOverflow)
+
+func SafeMulUint64
+  ensures  fits(uint64, x * y) ==> r1 == nil && r0 == x * y
+  ensures !fits(uint64, x * y) ==> is(r1, ErrIntegerOverflow)
+
+func SafeMulInt64
+  ensures  fits(int64, x * y) ==> r1 == nil && r0 == x * y
+  ensures !fits(int64, x * y) ==> is(r1, ErrIntegerOverflow)
+
+func SafeDiv
+  instantiate T: int8, int16, int32, int64, uint8, uint16, uint32, uint64
+  ensures y == 0 ==> is(r1, ErrIntegerDivisionByZero)
+  ensures y != 0 &&  fits(T, x / y) ==> r1 == nil && r0 == x / y
+  ensures y != 0 && !fits(T, x / y) ==> is(r1, ErrIntegerOverflow)
+
+func SafeLeftShift
+  instantiate T: int8, int16, int32, int64, uint8, uint16, uint32, uint64
+  ensures  fits(T, val * pow2(shift)) ==> r1 == nil && r0 == val * pow2(shift)
+  ensures !fits(T, val * pow2(shift)) ==> is(r1, ErrIntegerOverflow)
+
+func Safe64MulDiv
+  ensures div == 0 ==> is(r1, ErrIntegerDivisionByZero)
+  ensures div != 0 &&  fits(uint64, (x * y) / div) ==> r1 == nil && r0 == (x * y) / div
+  ensures div != 0 && !fits(uint64, (x * y) / div) ==> is(r1, ErrIntegerOverflow)
+@*/
